@@ -15,7 +15,7 @@ pub const DEF: PropDef = PropDef {
     run,
     replay,
     level: "exploration",
-    rule: "primitive objects obtained from DefaultResolver and RingResolver are compared with independent oracles on generated inputs: (hash) digest, HMAC and Noise-HKDF for all hashes of the backend with HMAC keys 0..=block length, data 0..=3 blocks +-1 (and larger), HKDF with 1/2/3 outputs; (aead) encrypt under (key, 64-bit nonce incl. every single bit and high bytes, AD length 0..=300, plaintext length classes up to 65519) equals the standard cipher with the Noise nonce encoding, decrypt inverts it for both output-buffer paths, every single-bit change of ciphertext/tag/AD/nonce/key is rejected, rekey() equals REKEY; (dh) public keys and shared secrets for scalars and points incl. RFC 7748 / RFC 5903 vectors, clamping edge bits, non-canonical and low-order X25519 points, invalid P-256 points; generate() from a seeded RNG gives pubkey == oracle_pub(privkey) and distinct keys. Oracles: ring (SHA-2, AEAD, X25519, P-256) and own RFC 7693/2104/Noise-HKDF code for the default backend; RustCrypto called directly for the ring backend; the two oracle families are cross-checked on every run. Non-trivial = every comparison on a distinct generated input",
+    rule: "primitive objects obtained from DefaultResolver and RingResolver are compared with independent oracles on generated inputs: (hash) digest, HMAC and Noise-HKDF for all hashes of the backend with HMAC keys 0..=block length, data 0..=3 blocks +-1 (and larger), HKDF with 1/2/3 outputs; (aead) encrypt under (key, 64-bit nonce incl. every single bit and high bytes, AD length ladder 0..=257, 1000, 4 KiB+-1, 16 KiB, 32 KiB, 65535 and random up to 9000, plaintext length ladder up to 65535 (the statement's range; larger than any Noise message allows)) equals the standard cipher with the Noise nonce encoding, decrypt inverts it for both output-buffer paths, every single-bit change of ciphertext/tag/AD/nonce/key is rejected, rekey() equals REKEY; (dh) public keys and shared secrets for scalars and points incl. RFC 7748 / RFC 5903 vectors, clamping edge bits, non-canonical and low-order X25519 points, invalid P-256 points; generate() from a seeded RNG gives pubkey == oracle_pub(privkey) and distinct keys. Oracles: ring (SHA-2, AEAD, X25519, P-256) and own RFC 7693/2104/Noise-HKDF code for the default backend; RustCrypto called directly for the ring backend; the two oracle families are cross-checked on every run. Non-trivial = every comparison on a distinct generated input",
     technique: "differential testing of primitives against independent implementations and RFC known answers (proptest + boundary enumeration)",
     assumptions: &[
         "preconditions every internal caller guarantees are respected by the generator (output buffer >= input + 16, ciphertext >= 16 bytes, HMAC key <= block length, 32-byte HKDF chaining keys of hash length)",
@@ -509,6 +509,14 @@ pub fn run(ctx: &Ctx) {
             for b in 0..64 {
                 cases.push(Case::Aead { be, kind, nonce: 1u64 << b, ad_len: 32, pt_len: 20, seed: mix(seed, 500 + b), big_out: b % 2 == 0 });
             }
+            // associated-data and plaintext length ladders (block / tag / page boundaries up to the
+            // largest lengths the statement names), crossed sparsely with the nonce table
+            for (i, l) in LENS.iter().chain([4095usize, 4096, 4097, 16383, 16384, 32768, 65519, 65520, 65534, 65535].iter()).enumerate() {
+                let nonce = NONCES[i % 9];
+                cases.push(Case::Aead { be, kind, nonce, ad_len: *l, pt_len: [0usize, 33][i % 2], seed: mix(seed, 700 + i as u64), big_out: i % 2 == 0 });
+                cases.push(Case::Aead { be, kind, nonce, ad_len: [0usize, 64][i % 2], pt_len: *l, seed: mix(seed, 800 + i as u64), big_out: i % 2 == 1 });
+                cases.push(Case::AeadReject { be, kind, nonce, ad_len: (*l).min(9000), pt_len: (*l).min(5000), seed: mix(seed, 850 + i as u64), what: (i % 5) as u8, bit: (i * 13) as u16 });
+            }
             for what in 0..5u8 {
                 for bit in (0..ctx.tier.pick(64u16, 400)).map(|b| b * 7 + what as u16) {
                     cases.push(Case::AeadReject { be, kind, nonce: NONCES[(bit % 9) as usize], ad_len: [0usize, 32, 64][(bit % 3) as usize], pt_len: [0usize, 1, 33, 100][(bit % 4) as usize], seed: mix(seed, bit as u64), what, bit });
@@ -539,7 +547,7 @@ pub fn run(ctx: &Ctx) {
             let hk = (0usize..4).prop_map(|i| HASHES[i]);
             let ck = (0usize..3).prop_map(|i| CIPHERS[i]);
             let nonce = prop_oneof![2 => any::<u64>(), 1 => (0usize..NONCES.len()).prop_map(|i| NONCES[i]), 1 => (0u32..64).prop_map(|b| 1u64 << b)];
-            let len = prop_oneof![6 => 0usize..300, 2 => 0usize..5000, 1 => 65000usize..65520];
+            let len = prop_oneof![6 => 0usize..300, 2 => 0usize..5000, 1 => 65000usize..65536];
             prop_oneof![
                 2 => (be.clone(), hk.clone(), prop_oneof![3 => prop::collection::vec(0usize..400, 0..5), 1 => prop::collection::vec(0usize..40, 5..60)], any::<u64>()).prop_map(|(be, kind, chunks, seed)| Case::Hash { be, kind, chunks, seed }),
                 2 => (be.clone(), hk.clone(), 0usize..129, 0usize..600, any::<u64>()).prop_map(|(be, kind, klen, dlen, seed)| Case::Hmac { be, kind, klen, dlen, seed }),
